@@ -53,6 +53,14 @@ Theorem C24_first_chunk_not_func : forall src toks pre cs, tiling src toks = tru
   top_chunks src toks = Ok (Some (pre, cs)) -> exists c cs', cs = (false, c) :: cs'.
 Proof. exact first_chunk_not_func. Qed.
 
+(* the prefix is the source up to the first non-declaration statement; all statements before it are
+   declarations; there is one chunk per statement from there on *)
+Theorem C24_prefix_is_the_leading_declarations : forall src toks pre cs, top_chunks src toks = Ok (Some (pre, cs)) ->
+  exists ss k s r p, split_stmts toks 0 [] [] = Ok ss /\ skipn k ss = s :: r /\
+    Forall (fun d => stmt_is_decl d = Ok true) (firstn k ss) /\ stmt_is_decl s = Ok false /\
+    first_pos s = Ok p /\ pre = sub src 0 p /\ length cs = length (s :: r).
+Proof. exact prefix_only_decls. Qed.
+
 (* no byte added or lost: same multiset of bytes, same length *)
 Theorem C24_rearrange_bytes_multiset_and_length : forall src toks out, tiling src toks = true ->
   rearrange src toks = Ok out -> Permutation src out /\ length out = length src.
@@ -117,6 +125,7 @@ Print Assumptions C24_rearrange_is_chunk_permutation.
 Print Assumptions C24_order_inside_classes_kept.
 Print Assumptions C24_funcs_precede_others.
 Print Assumptions C24_first_chunk_not_func.
+Print Assumptions C24_prefix_is_the_leading_declarations.
 Print Assumptions C24_rearrange_bytes_multiset_and_length.
 Print Assumptions C24_statements_are_depth0_semicolon_runs.
 Print Assumptions C24_sourceex_succeeds.
